@@ -169,6 +169,7 @@ func main() {
 		{10 * time.Second, 1 * time.Second, 4, 0x1f0008ff},
 		{1 * time.Minute, 10 * time.Second, 4, 0x1e03ffff},
 		{100 * time.Second, 10 * time.Second, 3, 0x1d00ffff},
+		{24 * time.Hour, 2 * time.Minute, 4, 0},
 	}
 	for i := 0; i < run.N(200, 5000); i++ {
 		pc := cfgs[rng.Intn(len(cfgs))]
@@ -177,6 +178,11 @@ func main() {
 		pw.TargetTimespan, pw.TargetTimePerBlock, pw.AdjustmentFactor = pc.timespan, pc.perblock, pc.factor
 		pw.PowLimitBits = pc.limitBits
 		pw.PowLimit = blockchain.CompactToBig(pc.limitBits)
+		if pc.limitBits == 0 { // the built-in main net pair, untouched (PowLimitBits is not the compact form of PowLimit there)
+			pw.PowLimitBits = config.DefaultParams.PowConfiguration.PowLimitBits
+			pw.PowLimit = config.DefaultParams.PowConfiguration.PowLimit
+			pc.limitBits = blockchain.BigToCompact(pw.PowLimit)
+		}
 		bc := blockchain.NewRetargetVerif(&params)
 		per := uint32(pc.timespan / pc.perblock)
 		T := int64(pc.timespan / time.Second)
@@ -242,6 +248,19 @@ func main() {
 		up := new(big.Int).Mul(old, big.NewInt(pc.factor))
 		if nt.Cmp(up) > 0 || nt.Cmp(pw.PowLimit) > 0 {
 			st.Fail("retarget:up", "new target above factor*old or above limit", map[string]interface{}{"oldBits": oldBits, "span": span, "out": out})
+		}
+		// oracle: ... and not below old/factor (or the limit), up to the 2^-15 relative precision of the compact form
+		// (the configured minimum timespan is T/factor in integer arithmetic, so the exact bound is old*(T/factor)/T,
+		// which is old/factor when factor divides T — theorem C09_retarget_bounds)
+		low := new(big.Int).Mul(old, big.NewInt(T/pc.factor))
+		low.Div(low, big.NewInt(T))
+		if low.Cmp(pw.PowLimit) > 0 {
+			low.Set(pw.PowLimit)
+		}
+		slack := new(big.Int).Rsh(low, 15)
+		slack.Add(slack, one)
+		if new(big.Int).Add(nt, slack).Cmp(low) < 0 {
+			st.Fail("retarget:down", "new target below old/factor (and below the limit)", map[string]interface{}{"oldBits": oldBits, "span": span, "out": out, "limitBits": pw.PowLimitBits, "limit": pw.PowLimit.String()})
 		}
 		if i == 0 {
 			st.Sample(map[string]interface{}{"op": "CalcNextRequiredDifficulty", "oldBits": oldBits, "span": span, "T": T, "factor": pc.factor, "out": out})
